@@ -283,6 +283,14 @@ def check(ctx, report):
                                '(the rendering silently drops data)' % ast.unparse(loops[0].iter))
     from .c16 import hex_rendering
     hex_rendering(ctx, report, rule='C14.R3')
+    # ---- R8: a rendering that stores into the rendered object (or into a shared enum member value) makes the next rendering
+    # depend on the ones before it; decided with the effect analysis of C13.R1 restricted to the serialiser entry points
+    from .c13 import observers_pure
+    report.rule('C14.R8', 'serialisers store nothing into the rendered object: output does not depend on earlier renderings')
+    observers_pure(ctx, report, RULE='C14.R8', names=['_asdict', 'as_json', '_as_markdown', 'as_markdown', '__str__', 'host_key_asdict',
+                                                     '_markdown_result', '_markdown_result_complex', '_markdown_human_readable_names',
+                                                     '_markdown_result_list', '_json_traverse', '_json_result', '_get_ordered_dict'])
+    report.floor('C14.R8', 50, 'serialiser definitions')
     # ---- R7: rendering never runs a partial codec over field values (a strict encode / decode of data raises for some values:
     # the idna codec rejects empty and over-long labels, ascii rejects non-ASCII text)
     report.rule('C14.R7', 'serialiser functions apply no strict text codec to field values')
